@@ -97,6 +97,10 @@ func (e *Env) evalLoc(x ast.Expr) []locRef {
 		case "held":
 			m := e.eval(n.Args[0]).V.(*Term)
 			return []locRef{{"G|held", ArrayS(IntS, BoolS), m}}
+		case "oncedone":
+			return []locRef{{"G|oncedone", ArrayS(IntS, BoolS), e.eval(n.Args[0]).V.(*Term)}}
+		case "world":
+			return []locRef{{"G|world", ArrayS(IntS, IntS), IntLit(0)}}
 		case "cancelled":
 			c, ok := e.eval(n.Args[0]).V.(IfaceV)
 			if !ok {
@@ -669,6 +673,11 @@ func (x *Exec) callFunc(fr *Frame, st *State, fn *ssa.Function, bind []Value, ar
 	}
 	key := x.eng.fnKey[fn]
 	c := x.eng.cs.Funcs[key]
+	if c == nil && fn.Synthetic != "" && fn.Blocks != nil && (strings.HasPrefix(fn.Synthetic, "wrapper") || strings.HasPrefix(fn.Synthetic, "bound") || strings.HasPrefix(fn.Synthetic, "thunk")) {
+		// compiler-generated wrapper (promoted method, method value): execute it, its target is called by contract
+		x.inline(fr, st, fn, bind, args, k)
+		return
+	}
 	if fn.Parent() != nil || (c != nil && c.Inline) {
 		if c != nil && c.Inline {
 			x.note("inlined", calleeShort(key))
@@ -976,6 +985,101 @@ func (x *Exec) stableSliceRef(fr *Frame, st *State, v ssa.Value, body map[*ssa.B
 	return sv.Ref, true
 }
 
+func arraysOfType(prefix func(string) string, t types.Type, nested bool) map[string]*Sort {
+	out := map[string]*Sort{}
+	for _, c := range comps(t) {
+		s := ArrayS(IntS, c.sort)
+		if nested {
+			s = ArrayS(IntS, ArrayS(IntS, c.sort))
+		}
+		out[prefix(c.suffix)] = s
+	}
+	return out
+}
+
+func arraysOfStruct(t types.Type) map[string]*Sort {
+	out := map[string]*Sort{}
+	owner := namedOf(t)
+	s := structOf(t)
+	for i := 0; i < s.NumFields(); i++ {
+		f := s.Field(i)
+		if isPlainStruct(f.Type()) {
+			for k, v := range arraysOfStruct(f.Type()) {
+				out[k] = v
+			}
+			continue
+		}
+		fn := f.Name()
+		for k, v := range arraysOfType(func(sfx string) string { return fieldArrName(owner, fn, sfx) }, f.Type(), false) {
+			out[k] = v
+		}
+	}
+	return out
+}
+
+func (x *Exec) addFreshOnly(m map[string]*Sort) {
+	if x.freshOnly == nil {
+		x.freshOnly = map[string]*Sort{}
+	}
+	for k, v := range m {
+		x.freshOnly[k] = v
+	}
+}
+
+// growOnlySlice: v loads a local slice variable that, inside body, is only ever assigned the result of
+// appending to itself, and whose value at loop entry is nil or a slice allocated by this function.
+func (x *Exec) growOnlySlice(fr *Frame, st *State, v ssa.Value, body map[*ssa.BasicBlock]bool) (*Term, bool) {
+	u, ok := v.(*ssa.UnOp)
+	if !ok {
+		return nil, false
+	}
+	al, ok := u.X.(*ssa.Alloc)
+	if !ok || al.Referrers() == nil {
+		return nil, false
+	}
+	for _, r := range *al.Referrers() {
+		s, ok := r.(*ssa.Store)
+		if !ok || s.Addr != ssa.Value(al) || !body[s.Block()] {
+			continue
+		}
+		call, ok := s.Val.(*ssa.Call)
+		if !ok {
+			return nil, false
+		}
+		bi, ok := call.Common().Value.(*ssa.Builtin)
+		if !ok || bi.Name() != "append" {
+			return nil, false
+		}
+		src, ok := call.Common().Args[0].(*ssa.UnOp)
+		if !ok || src.X != ssa.Value(al) {
+			return nil, false
+		}
+	}
+	var cur Value
+	switch p := fr.regs[al].(type) {
+	case CellPtr:
+		if len(p.Path) != 0 {
+			return nil, false
+		}
+		cur = st.cells[p.C]
+	case *Term:
+		cur = readPtr(st.heap, al.Type().(*types.Pointer).Elem(), p)
+	default:
+		return nil, false
+	}
+	sv, ok := cur.(SliceV)
+	if !ok {
+		return nil, false
+	}
+	if sv.Ref.IsInt() && sv.Ref.Int.Sign() == 0 {
+		return sv.Ref, true
+	}
+	if _, _, isAlloc := allocInfo(sv.Ref); isAlloc {
+		return sv.Ref, true
+	}
+	return nil, false
+}
+
 // loopWrites2 additionally reports single cells (points) written through known addresses.
 func (x *Exec) loopWrites2(fr *Frame, st *State, body map[*ssa.BasicBlock]bool) (cells []*Cell, arrays map[string]*Sort, points []locRef) {
 	arrays = map[string]*Sort{}
@@ -1047,6 +1151,11 @@ func (x *Exec) loopWrites2(fr *Frame, st *State, body map[*ssa.BasicBlock]bool) 
 						addType(func(sfx string) string { return fieldArrName(owner, fn, sfx) }, f.Type(), false)
 					}
 				case *ssa.IndexAddr:
+					// an array allocated inside the loop (e.g. a variadic argument pack): fresh addresses only
+					if al, ok := a.X.(*ssa.Alloc); ok && body[al.Block()] {
+						x.addFreshOnly(arraysOfType(func(sfx string) string { return elemArrName(pt, sfx) }, pt, true))
+						continue
+					}
 					// a slice held in a local that the loop never reassigns: only that backing array changes
 					if ref, ok := x.stableSliceRef(fr, st, a.X, body); ok {
 						for _, c := range comps(pt) {
@@ -1070,20 +1179,21 @@ func (x *Exec) loopWrites2(fr *Frame, st *State, body map[*ssa.BasicBlock]bool) 
 					arrays[mapArrBase(mt)+"|val"+c.suffix] = ArrayS(IntS, ArrayS(ks, c.sort))
 				}
 			case *ssa.MakeSlice:
+				// allocation inside the loop: only addresses above the loop-entry frontier are written
 				el := n.Type().Underlying().(*types.Slice).Elem()
-				addType(func(sfx string) string { return elemArrName(el, sfx) }, el, true)
+				x.addFreshOnly(arraysOfType(func(sfx string) string { return elemArrName(el, sfx) }, el, true))
 			case *ssa.Alloc:
 				if n.Heap && !localOnly(n) {
 					t := n.Type().(*types.Pointer).Elem()
 					switch {
 					case isPlainStruct(t):
-						addStruct(t)
+						x.addFreshOnly(arraysOfStruct(t))
 					case isOpaqueStruct(t):
 					default:
 						if at, ok := types.Unalias(t).Underlying().(*types.Array); ok {
-							addType(func(sfx string) string { return elemArrName(at.Elem(), sfx) }, at.Elem(), true)
+							x.addFreshOnly(arraysOfType(func(sfx string) string { return elemArrName(at.Elem(), sfx) }, at.Elem(), true))
 						} else {
-							addType(func(sfx string) string { return ptrArrName(t, sfx) }, t, false)
+							x.addFreshOnly(arraysOfType(func(sfx string) string { return ptrArrName(t, sfx) }, t, false))
 						}
 					}
 				}
@@ -1091,9 +1201,9 @@ func (x *Exec) loopWrites2(fr *Frame, st *State, body map[*ssa.BasicBlock]bool) 
 				t := n.X.Type()
 				if !types.IsInterface(t) && !payloadIsValue(t) {
 					if isPlainStruct(t) {
-						addStruct(t)
+						x.addFreshOnly(arraysOfStruct(t))
 					} else if !isOpaqueStruct(t) {
-						addType(func(sfx string) string { return ptrArrName(t, sfx) }, t, false)
+						x.addFreshOnly(arraysOfType(func(sfx string) string { return ptrArrName(t, sfx) }, t, false))
 					}
 				}
 			case ssa.CallInstruction:
@@ -1101,6 +1211,24 @@ func (x *Exec) loopWrites2(fr *Frame, st *State, body map[*ssa.BasicBlock]bool) 
 				if bi, ok := cc.Value.(*ssa.Builtin); ok {
 					if bi.Name() == "append" || bi.Name() == "copy" {
 						el := cc.Args[0].Type().Underlying().(*types.Slice).Elem()
+						if bi.Name() == "append" {
+							// growing a slice that was nil (or freshly made here) at loop entry only writes
+							// backing arrays allocated after loop entry (or that one fresh array)
+							if ref, ok := x.growOnlySlice(fr, st, cc.Args[0], body); ok {
+								for _, c := range comps(el) {
+									nm := elemArrName(el, c.suffix)
+									srt := ArrayS(IntS, ArrayS(IntS, c.sort))
+									if x.freshOnly == nil {
+										x.freshOnly = map[string]*Sort{}
+									}
+									x.freshOnly[nm] = srt
+									if !(ref.IsInt() && ref.Int.Sign() == 0) {
+										points = append(points, locRef{nm, srt, ref})
+									}
+								}
+								continue
+							}
+						}
 						addType(func(sfx string) string { return elemArrName(el, sfx) }, el, true)
 					}
 					continue
@@ -1145,6 +1273,11 @@ func (x *Exec) loopWrites2(fr *Frame, st *State, body map[*ssa.BasicBlock]bool) 
 				}
 			}
 		}
+	}
+	if srt, ok := arrays["G|world"]; ok {
+		// the world token is a single cell
+		delete(arrays, "G|world")
+		points = append(points, locRef{"G|world", srt, IntLit(0)})
 	}
 	return cells, arrays, points
 }
@@ -1263,11 +1396,29 @@ func (x *Exec) loopRule(fr *Frame, hdr *ssa.BasicBlock, ord int, back bool, st *
 		x.check(st, fmt.Sprintf("%sinv.%d.entry.%s", fr.prefix, ord, cl.Label), evalInv(env, cl), pos)
 	}
 	// havoc everything the body may assign
+	x.freshOnly = nil
 	cells, arrays, points := x.loopWrites2(fr, st, body)
 	for _, cell := range cells {
 		st.cells[cell] = st.fresh(cell.T, "loop|"+cell.name)
 	}
 	x.havoc(st, points)
+	// arrays only written at addresses allocated after loop entry: havoc with a frame for older addresses
+	topAtEntry := st.heaptop
+	for _, nm := range sortedKeys(x.freshOnly) {
+		if _, whole := arrays[nm]; whole {
+			continue
+		}
+		srt := x.freshOnly[nm]
+		old := st.arr(nm, srt)
+		nw := Const(freshName(nm), srt)
+		x.pendingTop = append(x.pendingTop, nw.Name)
+		a := Var(freshName("fa"), IntS)
+		q := Forall([]*Term{a}, Implies(Le(a, topAtEntry), Eq(Select(nw, a), Select(old, a))))
+		q.Pat = []*Term{Select(nw, a)}
+		st.assume(q)
+		st.heap[nm] = nw
+		points = append(points, locRef{nm, srt, nil})
+	}
 	names := make([]string, 0, len(arrays))
 	for n := range arrays {
 		names = append(names, n)
